@@ -72,6 +72,9 @@ def handle (toks : List String) : Option String :=
       | "misc" => (do
           let idx ← parseNatList a1
           pure (showOpt (miscCombine Gen.miscRows idx S))).orElse fun _ => some "err parse"
+      | "proj1" => (do
+          let k ← a1.toNat?; let m ← a2.toNat?
+          pure (showOpt (projectOne k m S))).orElse fun _ => some "err parse"
       | "total" => some ("ok " ++ showRat (total S))
       | _ => some "err op"
   | _ => none
